@@ -36,6 +36,7 @@ func init() {
 		"c03replay":   c03Replay,
 		"c20replay":   c20Replay,
 		"c09replay":   c09Replay,
+		"c09big":      c09Big,
 	}})
 }
 
